@@ -10,6 +10,7 @@ import (
 	"go/constant"
 	"go/token"
 	"go/types"
+	"strconv"
 	"strings"
 
 	"golang.org/x/tools/go/ssa"
@@ -51,6 +52,7 @@ type Elem struct{ Base, Index Val }
 
 func (e ElemPtr) String() string { return fmt.Sprintf("&%v[%v]", e.Base, e.Index) }
 func (e Elem) String() string    { return fmt.Sprintf("%v[%v]", e.Base, e.Index) }
+
 type Zero struct{ T types.Type } // zero value of some type we do not model further
 
 func (c Const) String() string {
@@ -645,6 +647,7 @@ func (ev *Evaluator) instr(env map[ssa.Value]Val, in ssa.Value) (Val, error) {
 				return Ptr{Cell: arr.Elems[i]}, nil
 			}
 		}
+		x, idx = rebaseSlice(x, idx)
 		return ElemPtr{Base: x, Index: idx}, nil
 	case *ssa.Call:
 		return ev.call(env, in)
@@ -675,6 +678,7 @@ func (ev *Evaluator) instr(env map[ssa.Value]Val, in ssa.Value) (Val, error) {
 				}
 			}
 		}
+		x, idx = rebaseSlice(x, idx)
 		return Elem{Base: x, Index: idx}, nil
 	case *ssa.MakeSlice:
 		return Sym{"make"}, nil
@@ -753,6 +757,39 @@ func (ev *Evaluator) binop(op token.Token, x, y Val, pos token.Pos) (Val, error)
 		// interval values
 		if r, ok := rangeCmp(op, x, y); ok {
 			return Const{constant.MakeBool(r)}, nil
+		}
+		if op == token.EQL || op == token.NEQ {
+			// struct values compare field by field
+			if sx, ok := x.(*StructV); ok {
+				if sy, ok := y.(*StructV); ok && len(sx.Fields) == len(sy.Fields) {
+					all := true
+					for i := range sx.Fields {
+						r, err := ev.binop(token.EQL, sx.Fields[i], sy.Fields[i], pos)
+						if err != nil {
+							return nil, err
+						}
+						c, isC := r.(Const)
+						if !isC || c.V == nil || c.V.Kind() != constant.Bool {
+							return nil, &Undecided{pos, fmt.Sprintf("field comparison %v == %v", sx.Fields[i], sy.Fields[i])}
+						}
+						if !constant.BoolVal(c.V) {
+							all = false
+							break
+						}
+					}
+					return Const{constant.MakeBool(all == (op == token.EQL))}, nil
+				}
+			}
+			// pointers compare by the cell they designate (scenarios decide which parameters alias)
+			if px, ok := x.(Ptr); ok {
+				if py, ok := y.(Ptr); ok && px.Cell != nil && py.Cell != nil {
+					same := px.Cell == py.Cell && len(px.Path) == len(py.Path)
+					for i := 0; same && i < len(px.Path); i++ {
+						same = px.Path[i] == py.Path[i]
+					}
+					return Const{constant.MakeBool(same == (op == token.EQL))}, nil
+				}
+			}
 		}
 		// pointer vs nil
 		if px, ok := x.(Ptr); ok && oky && cy.V == nil {
@@ -1026,4 +1063,38 @@ func isNumericish(t types.Type) bool {
 	}
 	walk(tp.Constraint(), 0)
 	return found
+}
+
+// rebaseSlice: element k of x[lo:] (constant lo and k) is element lo+k of x — so that `in := input[9:]; in[8]` and
+// `input[17]` are the same abstract element.
+func rebaseSlice(x, idx Val) (Val, Val) {
+	for i := 0; i < 4; i++ {
+		t, ok := x.(Term)
+		if !ok || len(t.Args) != 1 || !strings.HasPrefix(t.Fn, "slice[") || !strings.HasSuffix(t.Fn, "]") {
+			return x, idx
+		}
+		bounds := t.Fn[len("slice[") : len(t.Fn)-1]
+		j := strings.Index(bounds, ":")
+		if j < 0 {
+			return x, idx
+		}
+		lo := int64(0)
+		if bounds[:j] != "" {
+			n, err := strconv.ParseInt(bounds[:j], 10, 64)
+			if err != nil {
+				return x, idx
+			}
+			lo = n
+		}
+		c, ok := idx.(Const)
+		if !ok || c.V == nil || c.V.Kind() != constant.Int {
+			return x, idx
+		}
+		k, exact := constant.Int64Val(c.V)
+		if !exact {
+			return x, idx
+		}
+		x, idx = t.Args[0], Const{constant.MakeInt64(lo + k)}
+	}
+	return x, idx
 }
